@@ -184,5 +184,14 @@ def run(ctx):
     ctx.anchor("specialised variants compared with their Cartesian kernel", n, 30)
     ctx.analysed["specialised_variants_undecided"] = und
     if und:
-        ctx.decline("C11.specialised-variants left undecided (no proof, no differing point): " + ", ".join(und))
+        from .. import singular as _sg
+    import re as _re
+
+    ctx.rule("C11.special-arguments",
+             "every variant of the scale, evaluated (IEEE point semantics of the inlined IR) on generic operands with special values of the scalar arguments - 0, +-1, +-pi, pi/2, "
+             "+-0.5, and for several arguments each in turn - gives the values frozen from the pinned tree in tables/special_args.json: an algebraically equivalent rewrite "
+             "with a pole at a half turn / at rest / at zero (s**2/(1+c) for 1-c, (gamma-1)/beta**2 for gamma**2/(1+gamma)) changes them to NaN exactly there")
+    _n_sp = _sg.special_obligations(ctx, L, "C11.special-arguments", lambda short: bool(_re.search(r"\.scale$", short)))
+    ctx.anchor("scale variants with frozen special-argument values", _n_sp, 10)
+    ctx.decline("C11.specialised-variants left undecided (no proof, no differing point): " + ", ".join(und))
     ctx.decline("float rounding; laws for non-Cartesian signatures follow from C01 (same template)")
